@@ -150,21 +150,23 @@ def nget : NMap → Nat → Option Nat
 def maxL (l : List Nat) : Nat := l.foldl max 0
 def minL (l : List Nat) : Nat := l.foldl min (l.headD 0)
 
-/-- `for mm in missing_modes: mode_mapping[mm] = max(mode_mapping.values()) + 1` -/
-def fillMissing (m : NMap) : List Nat → NMap
-  | [] => m
-  | mm :: t => fillMissing (m ++ [(mm, maxL (m.map (·.2)) + 1)]) t
+/-- how many modes of the span before position `i` are not keys of the mapping -/
+def missingBefore (keys : List Nat) (mn i : Nat) : Nat :=
+  ((List.range i).filter fun t => !keys.contains (mn + t)).length
 
-/-- the completed mapping: every mode between the smallest and the largest key has a value -/
-def completed (m : NMap) : NMap :=
-  let keys := m.map (·.1)
-  fillMissing m ((List.range (maxL keys + 1 - minL keys)).filterMap fun i =>
-    if keys.contains (minL keys + i) then none else some (minL keys + i))
+/-- the value the completed mapping gives the `i`-th mode of the span `min … max`: the user's value for a key;
+`for mm in missing_modes: mode_mapping[mm] = max(mode_mapping.values()) + 1` gives the `r`-th missing mode (they are
+visited in increasing order, the maximum grows by one each time) the value `max(values) + 1 + r` -/
+def spanVal (nm : NMap) (i : Nat) : Nat :=
+  match nget nm (minL (nm.map (·.1)) + i) with
+  | some v => v
+  | none => maxL (nm.map (·.2)) + 1 + missingBefore (nm.map (·.1)) (minL (nm.map (·.1))) i
 
-/-- `perm_vect = [mode_mapping[i] for i in sorted(mode_mapping.keys())]` (the keys of the completed mapping are
-the whole span `min … max`) -/
-def permVect (full : NMap) : List Nat :=
-  (List.range full.length).map fun i => (nget full (minL (full.map (·.1)) + i)).getD 0
+/-- number of modes between the smallest and the largest key, both included -/
+def spanLen (nm : NMap) : Nat := maxL (nm.map (·.1)) + 1 - minL (nm.map (·.1))
+
+/-- `perm_vect = [mode_mapping[i] for i in sorted(mode_mapping.keys())]` of the completed mapping -/
+def permVect (nm : NMap) : List Nat := (List.range (spanLen nm)).map (spanVal nm)
 
 /-! ### the machine -/
 
@@ -218,9 +220,9 @@ def firstSize (mp : Mapping) (cm : Nat) : Option Nat :=
   | .dict _ => none              -- `max(dict)` over keys of mixed types: outside the model
 
 /-- what a successful `add(mapping, circuit)` appends to the component list -/
-def mappedComps (full : NMap) (c : UC) : List Comp :=
-  let mn := minL (full.map (·.1))
-  let σ := permVect full
+def mappedComps (nm : NMap) (c : UC) : List Comp :=
+  let mn := minL (nm.map (·.1))
+  let σ := permVect nm
   (if isIdentity σ then [] else [.perm mn σ]) ++ [.sub mn c]
 
 /-- `add(mapping, circuit)` on the processor `e`: the resolved mapping (keys in dictionary order), or the exception -/
@@ -237,7 +239,7 @@ def resolveAdd (aw : AWorld) (e : Exp) (mp : Mapping) (c : UC) : Res NMap :=
         | none => false
       if blocked then throw Err.assertion
       else if m.any (fun kv => decide (kv.2 < 0)) then throw Err.assertion      -- `PERM`: not a permutation
-      else if ¬ IsPermList (completed nm).length (permVect (completed nm)) then throw Err.assertion
+      else if ¬ IsPermList (spanLen nm) (permVect nm) then throw Err.assertion
       else pure nm
 
 def usesPortName : Mapping → Bool
@@ -253,7 +255,7 @@ def astep (aw : AWorld) : AOp → AWorld × Out
       if ex ≤ 1 ∧ underPort aw.ports mode then (aw, .err .unavailable)       -- "Another port overlaps"
       else let r := cstep aw.cw op; ({ aw with cw := r.1 }, r.2)
     | .convert p _ =>
-      if p.post.isSome then (aw, .err .precondition)           -- use `.convertPS`
+      if p.post.isSome ∨ p.size = 0 then (aw, .err .precondition)           -- use `.convertPS`
       else
         let r := cstep aw.cw op
         if r.2 = .done then ({ aw with cw := r.1, ports := [], portsKnown := false, psc := none }, r.2)
@@ -283,7 +285,7 @@ def astep (aw : AWorld) : AOp → AWorld × Out
         else let r := cstep aw.cw op; ({ aw with cw := r.1 }, r.2)
       | none => let r := cstep aw.cw op; ({ aw with cw := r.1 }, r.2)
   | .convertPS p pc conds =>
-    if p.post.isNone then (aw, .err .precondition)
+    if p.post.isNone ∨ p.size = 0 then (aw, .err .precondition)
     else
       let r := cstep aw.cw (.convert p pc)
       if r.2 = .done then
@@ -319,7 +321,7 @@ def astep (aw : AWorld) : AOp → AWorld × Out
           match resolveAdd aw e mp c with
           | .error err => (aw₁, .err err)
           | .ok nm =>
-            (setComps (setExp aw₁ (addComponent e c.sym c.cparams)) (aw.cw.comps ++ mappedComps (completed nm) c), .done)
+            (setComps (setExp aw₁ (addComponent e c.sym c.cparams)) (aw.cw.comps ++ mappedComps nm c), .done)
   | .setParams d =>
     match aw.cw.w.exp with
     | none => (aw, .err .precondition)
@@ -351,22 +353,24 @@ def AWorld.init (pf : Platform) (thrOnly : Bool) : AWorld := ⟨CWorld.init pf, 
 section Mat
 variable {R : Type} [CommRing R] [StarRing R]
 
-/-- where the light of mode `j` goes under a completed mapping whose span starts at `mn`: mode `k` of the span to
-`mn + v`, every other mode stays -/
-def routeFn (N : Nat) (full : NMap) (j : Fin N) : Fin N :=
-  match nget full j.val with
-  | some v => if h : minL (full.map (·.1)) + v < N then ⟨minL (full.map (·.1)) + v, h⟩ else j
-  | none => j
+/-- where the light of mode `j` goes under the user's mapping `nm` (`{processor mode: component input}`): a mode
+`mn + i` of the span `min key … max key` goes to `mn + v` where `v` is the input the user gave it, or — for a mode of
+the span the user did not name — the next free position behind the component's inputs; every other mode stays -/
+def routeFn (N : Nat) (nm : NMap) (j : Fin N) : Fin N :=
+  if h : minL (nm.map (·.1)) ≤ j.val ∧ j.val < minL (nm.map (·.1)) + spanLen nm ∧
+      minL (nm.map (·.1)) + spanVal nm (j.val - minL (nm.map (·.1))) < N then
+    ⟨minL (nm.map (·.1)) + spanVal nm (j.val - minL (nm.map (·.1))), h.2.2⟩
+  else j
 
 /-- one thing the user did to the circuit since the last reset -/
 inductive Seg where
   | leaves (ls : List (Nat × Leaf))      -- elementary components at absolute positions, in order
-  | route (full : NMap)                  -- "send mode `k` to the component input `v`", completed
+  | route (nm : NMap)                    -- "send mode `k` to the component input `v`" for every `k: v`
 deriving DecidableEq, Repr
 
 def Seg.mat (ρ : Env R) (N : Nat) : Seg → Matrix (Fin N) (Fin N) R
   | .leaves ls => flatMat ρ N ls
-  | .route full => permMatF (routeFn N full)
+  | .route nm => permMatF (routeFn N nm)
 
 /-- later segments on the left -/
 def segsMat (ρ : Env R) (N : Nat) (segs : List Seg) : Matrix (Fin N) (Fin N) R :=
@@ -404,9 +408,8 @@ def aspecAfter (aw : AWorld) (s : ASpec) : AOp → ASpec
       | some e =>
         match resolveAdd aw e mp c with
         | .ok nm =>
-          let full := completed nm
-          { s with segs := s.segs ++ (if isIdentity (permVect full) then [] else [.route full]) ++
-                             [.leaves (shiftLeaves (minL (full.map (·.1))) c.leaves)] }
+          { s with segs := s.segs ++ (if isIdentity (permVect nm) then [] else [.route nm]) ++
+                             [.leaves (shiftLeaves (minL (nm.map (·.1))) c.leaves)] }
         | .error _ => s
       | none => s
     | none => s
@@ -433,7 +436,7 @@ def AOp.delegate (aw : AWorld) : AOp → Option COp
     | .plain (.setPost _) => none
     | .add _ _ => none
     | .plain (.addHerald mode ex) => if ex ≤ 1 ∧ underPort aw.ports mode then none else some op
-    | .convert p _ => if p.post.isSome then none else some op
+    | .convert p _ => if p.post.isSome ∨ p.size = 0 then none else some op
     | .newRemote _ _ _ => some op
     | _ =>
       match aw.cw.w.exp with
@@ -445,7 +448,7 @@ def AOp.delegate (aw : AWorld) : AOp → Option COp
           | _ => none
         else some op
       | none => some op
-  | .convertPS p pc _ => if p.post.isNone then none else some (.convert p pc)
+  | .convertPS p pc _ => if p.post.isNone ∨ p.size = 0 then none else some (.convert p pc)
   | .post id _ => some (.plain (.setPost (some id)))
   | .clearPost => some (.plain (.setPost none))
   | _ => none
